@@ -207,3 +207,7 @@ def T_CLASS(cid):
 
 def T_OTHER(oid):
     return TyT(('Other', oid))
+
+
+def pv_equal(a, b):
+    return a == b
